@@ -158,7 +158,7 @@ class C12(Sim):
     PROBES = ["zero_vector", "point_box", "empty_box", "empty_intersection", "infinite_box", "raising_call",
               "errmode_nondefault", "errmode_flip", "shared_array_boxes", "pad_aliased_box", "boundary_point", "contained_point",
               "outside_point", "degenerate_triangle", "parallel_lines", "parallel_vectors", "inplace_normalize", "mesh_box",
-              "tiny_scale", "huge_scale", "same_array_twice", "needle_corner", "integer_vector_rotated", "mesh_vertex_moved", "caller_overwrites_array", "roots_asked_again", "extreme_corner"]
+              "tiny_scale", "huge_scale", "same_array_twice", "needle_corner", "integer_vector_rotated", "mesh_vertex_moved", "caller_overwrites_array", "roots_asked_again", "extreme_corner", "near_unit_axis"]
     QUICK_RUNS = 8000
     THOROUGH_RUNS = 1000000
     BLOCK = 100
@@ -709,6 +709,14 @@ class C12(Sim):
                 C = [b + k * (a - b) + (tiny if q == j else 0.0) for q, (a, b) in enumerate(zip(A, B))]
                 self._sliver = [ia, ib, self.next_arr]
                 return self._new_arr(C)
+        if len(self.arr) < MAX_ARRAYS and "rotate_axis" in ops and r.chance(0.04):
+            # an axis that is ALMOST a unit vector (a float32-normalised normal, a unit vector after a few operations): length 1 +- 1e-10 .. 1e-6
+            g = [self._gen_comp(r) for _ in range(3)]
+            ln = math.sqrt(sum(x * x for x in g))
+            if ln > 0:
+                k = 1.0 + r.choice([4e-7, -4e-7, 6e-8, -6e-8, 9e-7, 1e-10, -3e-9])
+                self._near_axis = self.next_arr
+                return self._new_arr([x / ln * k for x in g])
         if "cotan" in ops and r.chance(0.04):
             # a well-shaped corner very far from / very close to the origin of the exponent range ("all finite inputs"): literal points,
             # exponent +-60 .. +-120 (squares of the sides stay normal float64 numbers, sixth powers do not)
@@ -772,6 +780,9 @@ class C12(Sim):
         ids, mk = self._pick_ids(r, PRIM_ARGS[op])
         if ids is None:
             return mk if mk is not None else {"op": "angle_diff", "x": 1.0, "y": 2.0, "np": False}
+        na = getattr(self, "_near_axis", None)
+        if op == "rotate_axis" and na is not None and na in self.arr and r.chance(0.6):
+            ids[1] = na
         ev = {"op": op, "a": ids}
         if op in ("norm", "vnorm", "distance", "normalized", "normalize"):
             ev["which"] = r.choice(NORMS)
@@ -1763,6 +1774,9 @@ class C12(Sim):
         if not self.arr[ax].any():
             out = self._call(ev, self.G.rotate_around_axis, self.V(i), self.V(ax), float(ev["ang"]), arrs=(i, ax))
             return self._done(out)  # no axis: side effects only
+        n2 = float(np.dot(self.arr[ax], self.arr[ax]))
+        if n2 != 1.0 and abs(n2 - 1.0) < 1e-5:
+            self.probes["near_unit_axis"] += 1
         rot = lambda v, a: self._call(ev, self.G.rotate_around_axis, v, self.V(ax), a, arrs=(i, ax, i2))
         out = self._rot_laws(ev, rot, i, i2, 3, "rotate_around_axis", "geometry.rotate_around_axis", (ax,))
         self._settle()
